@@ -76,26 +76,33 @@ def check(ctx):
     cr = S.own_method("create")
     C = FuncView(ctx, cr, may_raise=may_raise_attr)
     sets = C.need(C.call_nodes("setattr"), "setattr calls in Share.create")
-    tests = C.tests(lambda t: src(t).replace(" ", "") == "nothasattr(self._data,k)")
-    ctx.floor("T1-create:guards", len(tests), 3)
+    def is_new_field_test(t):
+        e = C.sym(t.ast.test, t)
+        return src(e).replace(" ", "") == "nothasattr(self._data,k)"
+    tests = [t for t in C.cfg.nodes if t.kind == "test" and is_new_field_test(t)]
+    ctx.floor("T1-create:guards", len(tests), 1)
     ok = all(any(C.dominated_by_edge([s], t, "T") for t in tests) for s in sets)
     ctx.check(ok, "T1-create", cr, "every setattr in create is under `not hasattr(self._data, k)`",
               "create must never overwrite an existing field")
-    flags = [n for n in C.cfg.nodes if isinstance(n.ast, ast.Assign) and isinstance(n.ast.targets[0], ast.Name)
-             and isinstance(n.ast.value, ast.Constant) and n.ast.value.value is True]
-    fname = flags[0].ast.targets[0].id if flags else None
-    ok = bool(flags) and all(any(C.dominated_by_edge([fl], t, "T") for t in tests) for fl in flags)
-    ft = C.tests(lambda t: isinstance(t, ast.Name) and t.id == fname)
     st = _stamp_stores(C)
-    ok = ok and bool(ft) and bool(st) and all(C.dominated_by_edge([s], ft[0], "T") for s in st)
-    inits = [n for n in C.cfg.nodes if isinstance(n.ast, ast.Assign) and dotted(n.ast.targets[0]) == fname and
-             isinstance(n.ast.value, ast.Constant) and n.ast.value.value is False]
-    ok = ok and bool(inits)
-    # every new-field setattr sets the flag
-    for s in sets:
-        ok = ok and any(fl.id in C.cfg.reachable(s.id, removed_nodes=[h.id for h in C.cfg.nodes if h.kind == "for"]) for fl in flags)
-    ctx.check(ok, "T1-create", cr, "create stamps only under flag `%s`, set exactly where a new field was added" % fname,
-              "creating fields stamps only when a new field was added")
+    gates = [t for t in C.cfg.nodes if t.kind == "test" and isinstance(t.ast.test, ast.Name) and st and all(C.dominated_by_edge([x], t, "T") for x in st)
+             and t.id not in {x.id for x in tests}]
+    fname = gates[0].ast.test.id if gates else None
+    fstores = [n for n in C.cfg.nodes if isinstance(n.ast, (ast.Assign, ast.AugAssign)) and any(
+        isinstance(x, ast.Name) and isinstance(x.ctx, ast.Store) and x.id == fname for x in C.cfg.walk_node(n))] if fname else []
+    loops = [h for h in C.cfg.nodes if h.kind == "for"]
+    in_loop = lambda n: any(id(n.ast) in {id(x) for x in ast.walk(h.ast)} for h in loops)
+    latched = bool(fstores) and all(isinstance(n.ast, ast.Assign) and isinstance(n.ast.value, ast.Constant) and
+                                    n.ast.value.value is True for n in fstores if in_loop(n))
+    inits = [n for n in fstores if not in_loop(n)]
+    latched = latched and bool(inits) and all(isinstance(n.ast.value, ast.Constant) and n.ast.value.value is False for n in inits)
+    trues = [n for n in fstores if in_loop(n)]
+    ok = bool(gates) and bool(st) and latched and bool(trues) and all(any(C.dominated_by_edge([fl], t, "T") for t in tests) for fl in trues)
+    for s_ in sets:   # every new-field setattr is followed by setting the flag in the same iteration
+        ok = ok and any(fl.id in C.cfg.reachable(s_.id, removed_nodes=[h.id for h in loops]) for fl in trues)
+    ctx.check(ok, "T1-create", cr, "create stamps only under flag `%s`: initialised False, only ever set True (latched) next to a new-field setattr" % fname,
+              "the stamp decision of create must remember that *some* field was added: a flag that is recomputed per field forgets "
+              "earlier additions (stale stamp), and a flag set without an addition stamps when nothing was created")
     D = ctx.cls("storing", "Data")
     sa = D.own_method("__setattr__")
     A = FuncView(ctx, sa, exc="calls")
